@@ -130,10 +130,9 @@ func c13enum(c *Ctx) {
 			a := attempt
 			attempt++
 			if a < schedLen && sched&(1<<uint(a)) != 0 {
-				n := 0
-				if a%2 == 1 {
-					n = len(p) / 2 // a short write with an error
-				}
+				// what the failing destination reports as its count: nothing, a short write, the C-style -1, or more than it was
+				// given (a miscounting wrapper): the error is what says that the write failed
+				n := []int{0, len(p) / 2, -1, len(p) + 7}[a%4]
 				return true, n
 			}
 			if shortNil && a%2 == 0 {
